@@ -57,6 +57,21 @@ CHECKS = {
             "LV/TLV and concrete-TLV layouts are model-checked (round trip, exact consumption, cross-class decode is a type "
             "mismatch) and every vector incl. the 6 x 5 x 3 mismatch matrix is executed on the classes via unpack / from_tlv / "
             "TlvHolder; random round trips are validated by TLC.", "DESIGN.md 5/C08", ""),
+    "C09": (True, "model_checking",
+            "TLA+ suffix-freeness / split laws over all unit decoders; TLC grid model checking + vector replay; TLC trace validation",
+            "For every self-delimiting unit kind the specification's expectation of a decode is independent of what follows the "
+            "unit; TLC checks the suffix law and SplitOk (back-to-back units split by the decoders' consumed lengths) on the "
+            "specification and every vector - each unit kind x an adversarial suffix family (TLV-like, segment-request-like, the "
+            "unit's own CRC, further valid packets) and streams of all ordered pairs of 18 unit kinds - is executed on the code; "
+            "random units / suffixes / streams are recorded and validated by TLC.", "DESIGN.md 5/C09", ""),
+    "C10": (True, "fault_enumeration",
+            "TLA+ robustness layer (entry-point table, prefix-rejection law on the spec's decoders); TLC-enumerated truncations / "
+            "substitutions replayed on every public decoder; TLC trace validation of random inputs",
+            "For 50 public decode entry points TLC enumerates every truncation point and header / length / type octet "
+            "substitutions of sample units, cross-kind decodes and foreign decoder parameters; the specification marks which "
+            "inputs are strict prefixes of a unit its own decoder accepts exactly (these must be refused; Inv_PrefixRejected "
+            "holds on the spec) and every other outcome must be an object or a documented error family within 5 s; seeded random "
+            "octet strings and randomly cut / mutated valid units are recorded and validated by TLC.", "DESIGN.md 5/C10", ""),
     "C11": (True, "model_checking",
             "TLA+ lifecycle state machine per mutable class (kept length recomputed from format parts); TLC exhaustive over all "
             "setter / pack / reload sequences; every transition replayed on real objects; TLC trace validation of random histories",
@@ -134,5 +149,5 @@ CHECKS = {
             "validated by TLC.", "DESIGN.md 5/C20", ""),
 }
 NOT_YET = {}
-for _i in [9, 10]:
+for _i in []:
     NOT_YET[f"C{_i:02d}"] = "check not built yet in this revision of /verif (construction in progress, see DESIGN.md 11)"
